@@ -1438,10 +1438,18 @@ int dump_compare_prefix(const dump_t *a, const dump_t *b, const char *path_a, co
     for (int i = 0; i < 256; ++i) {
         if (!a->present[i] && !b->present[i]) continue;
         if (a->present[i] != b->present[i]) { snprintf(key, sizeof(key), "%s|signal-set", kp); v_violation(prop, key, NULL, "signal %d present in one file only", i); bad++; continue; }
+        /* the copy holds the signal's first data block and the reopened original does not (the block was complete but not yet linked: the
+         * copy-has-more finding): the copy then knows the first sample id and reports annotation and UTC ids relative to it, the
+         * original relative to 0.  Same cause, its own key. */
+        int origin_differs = !g_prefix_lenient && a->length[i] <= 0 && b->length[i] > 0;
         r = seq_prefix(a->n_anno[i], a->seq_anno[i], a->h_anno[i], b->n_anno[i], b->seq_anno[i], b->h_anno[i]);
+        if (r < 0 && origin_differs && a->n_anno[i] <= b->n_anno[i]) { snprintf(key, sizeof(key), "%s|copy-has-more|samples|first-block|annotation-ids-shifted", kp); v_violation(prop, key, NULL, "signal %d: the copy holds the first data block (%lld samples), the reopened original none: annotation ids are relative to different origins", i, (long long) b->length[i]); bad++; }
+        else
         if (r < 0) { snprintf(key, sizeof(key), "%s|annotations", kp); v_violation(prop, key, NULL, "signal %d: annotations of the original (%zu) are not a prefix of the copy's (%zu)", i, a->n_anno[i], b->n_anno[i]); bad++; }
         else if (r > 0 && !g_prefix_lenient) { snprintf(key, sizeof(key), "%s|copy-has-more|annotations|%s", kp, b->n_anno[i] - a->n_anno[i] == 1 ? "one" : "several"); v_violation(prop, key, NULL, "signal %d: the copy holds %zu annotations, the reopened original %zu", i, b->n_anno[i], a->n_anno[i]); bad++; }
         r = seq_prefix(a->n_utc[i], a->seq_utc[i], a->h_utc[i], b->n_utc[i], b->seq_utc[i], b->h_utc[i]);
+        if (r < 0 && origin_differs && a->n_utc[i] <= b->n_utc[i]) { snprintf(key, sizeof(key), "%s|copy-has-more|samples|first-block|utc-ids-shifted", kp); v_violation(prop, key, NULL, "signal %d: the copy holds the first data block (%lld samples), the reopened original none: UTC sample ids are relative to different origins", i, (long long) b->length[i]); bad++; }
+        else
         if (r < 0) { snprintf(key, sizeof(key), "%s|utc", kp); v_violation(prop, key, NULL, "signal %d: UTC entries of the original (%zu) are not a prefix of the copy's (%zu)", i, a->n_utc[i], b->n_utc[i]); bad++; }
         else if (r > 0 && !g_prefix_lenient) { snprintf(key, sizeof(key), "%s|copy-has-more|utc", kp); v_violation(prop, key, NULL, "signal %d: the copy holds %zu UTC entries, the reopened original %zu", i, b->n_utc[i], a->n_utc[i]); bad++; }
         if (a->length[i] <= 0 && b->length[i] <= 0) continue;
